@@ -248,6 +248,11 @@ func sameAddr(a, b ssa.Value) bool {
 	if ok1 && ok2 && fa.Field == fb.Field {
 		return SameValue(fa.X, fb.X) || sameAddr(fa.X, fb.X)
 	}
+	ia, ok1 := a.(*ssa.IndexAddr)
+	ib, ok2 := b.(*ssa.IndexAddr)
+	if ok1 && ok2 {
+		return SameValue(ia.X, ib.X) && SameValue(ia.Index, ib.Index)
+	}
 	return false
 }
 
